@@ -28,6 +28,7 @@ class C02(PropBase):
         "marshal(v, t=T); decode(encode(v)) is compared with v for union-free T; bytes-like T must be carried verbatim. "
         "Non-trivial: the codec handle predates a fired cache clear (stale handle), or a peer failed on an earlier call of the "
         "same configuration, or a twin/other fault fired before; distinct = distinct (operation digest, pre-state signature)."
+        ' Under the twin fault, values that compare equal to a pooled value but are written differently (Decimal exponent, equal instant at another offset, 0.0/-0.0) go through the same codec.'
     )
     ASSUMPTIONS = ["mappings have str keys, ints are within 64 bits, floats finite, strings valid Unicode",
                    "decode(encode(v)) == v is judged for union-free T only; unions carry the ambiguity caveats decided under C01",
